@@ -79,7 +79,11 @@ def jitter(img, scale, pixelscale=1, oversample=1):
     kernel = np.exp(-2 * (np.pi * (scale / pixelscale) * oversample * rho) ** 2)
 
     out = np.abs(np.fft.ifft2(np.fft.fft2(img)*kernel))
-    return out * np.sum(img) / np.sum(out)  # rescale to preserve input weight
+    total = np.sum(out)
+    if total == 0:
+        # nothing to rescale: an image without signal stays without signal
+        return out
+    return out * np.sum(img) / total  # rescale to preserve input weight
 
 
 def smear(img, distance, angle=None, pixelscale=1, oversample=1):
@@ -170,5 +174,9 @@ def smear(img, distance, angle=None, pixelscale=1, oversample=1):
     kernel = np.sinc(yy_rot * (distance / pixelscale) * oversample)
 
     out = np.abs(np.fft.ifft2(np.fft.fft2(img)*kernel))
-    return out * np.sum(img) / np.sum(out)  # rescale to preserve input weight
+    total = np.sum(out)
+    if total == 0:
+        # nothing to rescale: an image without signal stays without signal
+        return out
+    return out * np.sum(img) / total  # rescale to preserve input weight
 
